@@ -141,8 +141,15 @@ def c12(seed, tier):
             bound = Fraction(2) ** (4 - prec)
             mp.prec = prec
             sub = xs if prec <= 113 else xs[::7]
+            # arguments whose size is tied to the precision (thresholds of the small-argument shortcuts)
+            rel = []
+            for e in (-prec - 2, -prec + 1, -(prec // 2) - 1, -(prec // 2) + 3, -(9 * prec) // 20, -(2 * prec) // 5,
+                      -(prec // 3) - 1, -(prec // 3) + 2, -(prec // 4)):
+                for m in (1, 3, 0x1921fb54442d18):
+                    rel.append(dyadic(m, e - m.bit_length() + 1))
+                    rel.append(-dyadic(m, e - m.bit_length() + 1))
             for (mname, fname, dom, lim, usetrig) in _funcs12():
-                cand = list(sub)
+                cand = list(sub) + rel
                 if usetrig:
                     cand += trig
                 if mname in ('ln', 'log2', 'log10', 'acosh', 'log1p', 'atanh', 'asin', 'acos'):
@@ -536,6 +543,42 @@ def c18(seed, tier):
                         v = definite_relerr_violation(_frac(rr), 1 / hi, 1 / lo, bound) if _is_real_finite(mp, rr) else True
                         if v:
                             fails.append({'fn': 'rgamma', 'x': str(x), 'prec': prec, 'observed': 'returned %s; reference about %s' % (rr if isinstance(rr, Raised) else mp.nstr(rr, 30), float(1 / lo))})
+            # binomial, rf, ff for real n and integer k: exact rational oracle n(n-1)...(n-k+1)/k!
+            ns = [Fraction(1, 1 << 33), -Fraction(3, 1 << 17), Fraction(1, 10), Fraction(5, 2), Fraction(-7, 4), Fraction(1001, 1000),
+                  Fraction(41, 8), Fraction(10 ** 6) + Fraction(1, 3), Fraction(1, 1000)]
+            for nq in ns:
+                for k in (1, 2, 3, 5, 8, 12, 40):
+                    num = Fraction(1)
+                    for j in range(k):
+                        num *= (nq - j)
+                    kf = 1
+                    for j in range(2, k + 1):
+                        kf *= j
+                    rfv = Fraction(1)
+                    for j in range(k):
+                        rfv *= (nq + j)
+                    nm = mp.mpf(nq.numerator) / nq.denominator          # the argument the function sees
+                    nx = _frac(nm)
+                    if nx != nq:
+                        # recompute the oracle for the rounded argument actually passed
+                        num = Fraction(1)
+                        rfv = Fraction(1)
+                        for j in range(k):
+                            num *= (nx - j)
+                            rfv *= (nx + j)
+                    for fname_, want, call in (('binomial', num / kf, lambda: mp.binomial(nm, k)), ('ff', num, lambda: mp.ff(nm, k)),
+                                               ('rf', rfv, lambda: mp.rf(nm, k))):
+                        if want == 0:
+                            continue
+                        r = _safe(call)
+                        n += 1
+                        v = definite_relerr_violation(_frac(r), want, want, bound) if _is_real_finite(mp, r) else True
+                        if v:
+                            f = {'fn': fname_, 'x': '%s, %d' % (nx, k), 'prec': prec,
+                                 'observed': 'returned %s; exact value %s' % (r if isinstance(r, Raised) else mp.nstr(r, 25), float(want))}
+                            if abs(nx - round(nx)) < Fraction(1, 1 << prec):
+                                f['class'] = 'binomial / ff / rf for n within 2**-prec of an integer'
+                            fails.append(f)
             for a in sub[::9]:
                 for b in sub[4::13]:
                     if a <= 0 or b <= 0 or a > 500 or b > 500:
@@ -550,7 +593,7 @@ def c18(seed, tier):
         mp.prec = 53
     return n, n, fails, [{'fn': 'gamma', 'x': '1/2', 'prec': 53}], \
         ('real arguments only: %d values (2**-60 .. 2**10 both signs, half-integers, 2**-10 / 2**-40 from the poles, the '
-         'minimum of gamma) x precisions %s: gamma, rgamma, loggamma (x > 0), digamma, factorial, beta (positive pairs); poles: '
+         'minimum of gamma) x precisions %s: gamma, rgamma, loggamma (x > 0), digamma, factorial, beta (positive pairs), binomial / rf / ff for real n and integer k (exact rational oracle); poles: '
          'rgamma == 0 and gamma raises; %d inputs skipped; reference MPFR %s' % (len(xs), list(precs), skipped, mpfr_version()))
 
 
